@@ -11,6 +11,7 @@ codon (CodonTable views), translate (every short nucleotide sequence x table x m
 
 import itertools
 import json
+import sys
 
 import numpy as np
 
@@ -36,7 +37,14 @@ RULE = (
     "length x table x {complete, ORF, ORF+met_start}. A case counts as non-trivial when the model "
     "classifies it REFUSE, or when it is ACCEPT with a non-empty compared result that uses at least one "
     "deviation from the plain default (non-default container form/dtype, length >= 2, negative or "
-    "non-unit-step index, state-changing operation, non-default table, >= 1 reported ORF)."
+    "non-unit-step index, state-changing operation, non-default table, >= 1 reported ORF). audit families: the "
+    "same logical code / symbol array in every listed memory flavour (read-only, strided, negative stride, column of a "
+    "2-d array, ndarray subclass, byte-swapped, 7 integer widths, object / wide / 0-d / generator / subclass symbol "
+    "containers) through every array-taking entry point with an argument-unchanged check; alphabets of 255..257 and "
+    "65535..65537 symbols and mappers between them (every width pair of the compiled mapping routine); k-mer alphabets "
+    "straddling the int64 limit; every 1- and 2-step history over a 25..27-operation menu (valid, refused and invalid-code "
+    "operations, symbols=, code=) on one sequence object against the string model; translation results scribbled over "
+    "and repeated, tables built from permuted arguments, sequences of 255..257, 999..1001 and 65535..65537 symbols."
 )
 ASSUMPTIONS = [
     "alphabets are built from pairwise different symbols (a bijection needs them); 1/True/1.0 are never mixed",
@@ -50,6 +58,8 @@ ASSUMPTIONS = [
     "translate() of an ambiguous-alphabet sequence (error or model value); == across classes/alphabets; "
     "codon tables without start codons (constructor error or no ORFs)",
     "view-versus-copy behaviour of indexing results is not examined (only copy() and reverse() independence)",
+    "aliasing the statement does not forbid is counted, not judged: Sequence.code= keeps a uint8 array handed in, "
+    "an AlphabetMapper that needs no mapping returns its argument (counters alias:*)",
     "NCBI table contents are read by an independent parser from the data file shipped in the working tree; "
     "table 1 is additionally compared with the textbook standard code",
 ]
@@ -76,6 +86,8 @@ def bounds(tier):
         "kmer_base": "2..4", "kmer_k": "2..4" if q else "2..5", "kmer_span": "<= k+2",
         "kmer_seq_len": "<= span+2 (n^len <= 2048)" if q else "<= span+3 (n^len <= 16384)",
         "seqapi_len": {"nuc": 4, "iupac": 3 if not q else "3 (2 + seed-chosen third letter block at quick)", "protein": 3 if not q else "2 + seed block", "general": 3},
+        "audit": "flavour_letter, flavour_generic (+ alphabets of 255..257 / 65535..65537 symbols, mapper width pairs), flavour_kmer "
+                 "(+ n^k around 2^63), seqhist (histories of depth 2), translate_extra (aliasing, argument order, lengths to 65537)",
         "translate_len": "<=8 (default, 1, syn1, syn2, 2 seed-chosen NCBI), <=6 all 25 NCBI + 4 synthetic, 9 over {A,T,G} (default, 1, syn1, syn2)" if q else
                          "<=8 all 25 NCBI + default + 4 synthetic tables; 9 (all of ACGT) for default, 1, syn1, syn2; 10-11 over {A,T,G} for default, syn1",
     }
@@ -1857,6 +1869,11 @@ def shards(tier, seed):
         for L in (10, 11):
             for p in itertools.product("ATG", repeat=L - 7):
                 out.append({"kind": "translate", "tables": four[::2], "len": L, "letters": "ATG", "prefix": "".join(p), "w": 3 + L})
+    # dimension-audit families (array flavours, aliasing, reuse / error paths, size switches, order, long inputs)
+    for fam in AUDIT_FAMS:
+        out.append({"kind": "audit", "fam": fam, "w": 4 if fam == "translate_extra" else 2})
+    for part in ("nuc", "nuca", "prot", "gen"):
+        out.append({"kind": "audit", "fam": "seqhist", "part": part, "w": 2})
     out.sort(key=lambda s: -s["w"])
     r = seed % 7
     return out[r:] + out[:r] if out else out
@@ -1882,6 +1899,8 @@ def replay(case, ctx):
         return check_codon_table(ctx, case["table"])
     if k == "translate":
         return replay_translate(case, ctx)
+    if k == "audit":
+        return replay_audit(case, ctx)
     raise ValueError(case)
 
 
@@ -1894,3 +1913,821 @@ def crash_class(case):
     if isinstance(case, dict):
         return "%s|%s" % (case.get("kind"), case.get("unit", "case"))
     return "unclassified"
+
+
+# ---------------------------------------------------------------------------
+# dimension audit families (array flavours, aliasing, reuse, size switches, order, long inputs)
+# ---------------------------------------------------------------------------
+class _SubArr(np.ndarray):
+    pass
+
+
+class _SubStr(str):
+    pass
+
+
+def int_flavours(values, dt, fill):
+    """(name, array, keepalive) : the same logical 1-D integer array in several memory layouts"""
+    base = np.array(values, dtype=dt)
+    n = len(values)
+    out = [("plain", base, None)]
+    ro = base.copy()
+    ro.setflags(write=False)
+    out.append(("readonly", ro, None))
+    big = np.full(2 * n + 1, fill, dtype=dt)
+    big[0:2 * n:2] = base
+    out.append(("strided", big[0:2 * n:2], big))
+    rev = np.array(values[::-1], dtype=dt)
+    out.append(("negstride", rev[::-1], rev))
+    two = np.full((max(n, 1), 3), fill, dtype=dt)
+    two[:n, 1] = base
+    out.append(("column", two[:n, 1], two))
+    out.append(("subclass", base.copy().view(_SubArr), None))
+    if base.dtype.itemsize > 1:
+        out.append(("byteswapped", base.astype(base.dtype.newbyteorder()), None))
+    return out
+
+
+def _snap(a, keep):
+    return (a.tobytes(), None if keep is None else keep.tobytes(), a.flags.writeable)
+
+
+def aud_case(fam, **kw):
+    return {"kind": "audit", "fam": fam, **kw}
+
+
+def check_flavoured(ctx, site, fam, label, flav, arr, keep, f, want, strict_flavours=True):
+    """run f(arr); judge against `want`; the argument must come back unchanged"""
+    before = _snap(arr, keep)
+    r = call(f, arr)
+    if r[0] == "ok":
+        r = ("ok", plain(r[1]))
+    cls_label = label.split("@")[0]
+    mk = lambda: aud_case(fam, label=label, flavour=flav)  # noqa: E731
+    w = want
+    if flav == "byteswapped" and not strict_flavours and want[0] == "accept":
+        w = ("either", want[1])
+    judge(ctx, site, "%s|%s" % (cls_label, flav), mk, r, w, 1)
+    ctx.outcome((site, label, flav, r[:2] if r[0] == "ok" else r[1]))
+    if _snap(arr, keep) != before:
+        ctx.violation("%s|argument_modified|%s|%s" % (site, cls_label, flav), "the call changed its array argument", mk(),
+                      "unchanged", "changed")
+    return r
+
+
+def fam_flavour_letter(ctx):
+    """LetterAlphabet / Sequence fed with the same codes and symbols in every array flavour"""
+    import biotite.sequence as bs
+
+    fam = "flavour_letter"
+    for syms in (sm.NUC4, sm.PROT24, "".join(PERMS[ctx.seed % 5])):
+        A, M = letter_objects(syms)
+        n = M.n
+        good = [0, n - 1, 1 % n, 0]
+        exp = [M.symbols[c] for c in good]
+        for dt in ("uint8", "int8", "uint16", "int32", "uint32", "int64", "uint64"):
+            for flav, arr, keep in int_flavours(good, dt, 0 if n > 200 else n):
+                check_flavoured(ctx, "LetterAlphabet.decode_multiple", fam, "valid@" + dt, flav, arr, keep,
+                                A.decode_multiple, ("accept", exp))
+                check_flavoured(ctx, "LetterAlphabet.decode_multiple", fam, "valid_bytes@" + dt, flav, arr, keep,
+                                lambda a: A.decode_multiple(a, as_bytes=True), ("accept", exp))
+
+                def via_seq(a):
+                    q = bs.GeneralSequence(A)
+                    q.code = a
+                    bad = observe_seq(q, M.symbols, exp)
+                    if bad:
+                        return list(bad)
+                    # the sequence as a whole keeps working on such a code array
+                    out = [str(q.reverse()), str(q.copy()), str(q + q), str(q[1:3]), bool(q == bs.GeneralSequence(A, exp)),
+                           observe_seq(q, M.symbols, exp)]
+                    return out
+                e = "".join(exp)
+                check_flavoured(ctx, "Sequence.code=", fam, "valid@" + dt, flav, arr, keep, via_seq,
+                                ("accept", [e[::-1], e, e + e, e[1:3], True, None]))
+
+                def via_setitem(a):
+                    q = bs.GeneralSequence(A, [M.symbols[0]] * 6)
+                    q[1:5] = a
+                    return str(q)
+                check_flavoured(ctx, "Sequence.__setitem__", fam, "valid@" + dt, flav, arr, keep, via_setitem,
+                                ("accept", M.symbols[0] + e + M.symbols[0]))
+            badv = [0, n, 1 % n]
+            for flav, arr, keep in int_flavours(badv, dt, 0):
+                check_flavoured(ctx, "LetterAlphabet.decode_multiple", fam, "code_eq_len@" + dt, flav, arr, keep,
+                                A.decode_multiple, ("refuse", True))
+
+                def refused_code(a):
+                    q = bs.GeneralSequence(A, exp)
+                    try:
+                        q.code = a
+                    except Exception:  # noqa: BLE001
+                        # refused: the sequence must be what it was and work like a fresh one afterwards
+                        bad = observe_seq(q, M.symbols, exp)
+                        q.code = np.array(good, dtype=np.uint8)
+                        return ["refused", bad, observe_seq(q, M.symbols, exp)]
+                    r2 = call(str, q)
+                    return ["stored", r2[0]]
+                r = check_flavoured(ctx, "Sequence.code=", fam, "code_eq_len@" + dt, flav, arr, keep, refused_code, ("free",))
+                if r[0] == "ok" and r[1] not in (["refused", None, None], ["stored", "exc"]):
+                    ctx.violation("Sequence.code=|bad_state_after_invalid_code|%s" % flav, "invalid code: neither refused cleanly nor stored-and-refused-on-read",
+                                  aud_case(fam, label="code_eq_len@" + dt, flavour=flav), "refused/unchanged or unreadable", r[1])
+        # index arrays and masks in flavours
+        q0 = list(exp) + [M.symbols[0], M.symbols[-1]]
+        for dt in ("int64", "int8", "uint8", "int32"):
+            idx = [5, 0, 2]
+            for flav, arr, keep in int_flavours(idx, dt, 1):
+                check_flavoured(ctx, "Sequence.__getitem__", fam, "index@" + dt, flav, arr, keep,
+                                lambda a: str(bs.GeneralSequence(A, q0)[a]), ("accept", "".join(q0[i] for i in idx)))
+        mask = [True, False, True, True, False, True]
+        for flav, arr, keep in int_flavours(mask, "bool", False):
+            check_flavoured(ctx, "Sequence.__getitem__", fam, "mask", flav, arr, keep,
+                            lambda a: str(bs.GeneralSequence(A, q0)[a]), ("accept", "".join(s for s, m in zip(q0, mask) if m)))
+        # symbol containers in flavours
+        word = [M.symbols[c] for c in good]
+        codes = list(good)
+        sym_inputs = [
+            ("object_array", np.array(word, dtype=object), ("accept", codes)),
+            ("object_array@bytes", np.array([w.encode() for w in word], dtype=object), ("accept", codes)),
+            ("wide_U", np.array(word, dtype="U3"), ("accept", codes)),
+            ("wide_S", np.array([w.encode() for w in word], dtype="S2"), ("accept", codes)),
+            ("byteswapped_U", np.array(word, dtype=">U1" if sys.byteorder == "little" else "<U1"), ("accept", codes)),
+            ("readonly_U", (lambda a: (a.setflags(write=False), a)[1])(np.array(word, dtype="U1")), ("accept", codes)),
+            ("strided_U", np.array([x for w in word for x in (w, "\x7f")], dtype="U1")[::2], ("accept", codes)),
+            ("strided_S", np.array([x for w in word for x in (w.encode(), b"\x7f")], dtype="S1")[::2], ("accept", codes)),
+            ("subclass_array", np.array(word, dtype="U1").view(_SubArr), ("accept", codes)),
+            ("str_subclass", _SubStr("".join(word)), ("accept", codes)),
+            ("list_of_str_subclass", [_SubStr(w) for w in word], ("accept", codes)),
+            ("list_of_np_str", [np.str_(w) for w in word], ("accept", codes)),
+            ("list_of_np_bytes", [np.bytes_(w.encode()) for w in word], ("accept", codes)),
+            ("bytearray", bytearray("".join(word).encode()), ("either", codes)),
+            ("memoryview", memoryview("".join(word).encode()), ("either", codes)),
+            ("zero_dim", np.array(word[0]), ("either", codes[:1])),
+            ("two_dim", np.array([word, word]), ("either", codes + codes)),
+            ("object_array_multichar", np.array([word[0], word[1] * 2], dtype=object), ("either", NOVALUE)),
+            ("object_array_none", np.array([word[0], None], dtype=object), ("either", NOVALUE)),
+            ("object_array_int", np.array([word[0], 1], dtype=object), ("either", NOVALUE)),
+            ("wide_U_multichar", np.array([word[0], word[1] + word[0]], dtype="U3"), ("either", NOVALUE)),
+        ]
+        for label, x, want in sym_inputs:
+            snap = x.tobytes() if isinstance(x, np.ndarray) and x.dtype.kind != "O" else None
+            r = call(A.encode_multiple, x)
+            if r[0] == "ok":
+                r = ("ok", pl(r[1]))
+            judge(ctx, "LetterAlphabet.encode_multiple", label.split("@")[0], lambda: aud_case(fam, alph=syms, label=label), r, want, 1)
+            ctx.outcome(("encm_flav", label, r[:2] if r[0] == "ok" else r[1]))
+            if snap is not None and x.tobytes() != snap:
+                ctx.violation("LetterAlphabet.encode_multiple|argument_modified|" + label, "argument changed", aud_case(fam, label=label), None, None)
+        for label, make in (("generator", lambda: (w for w in word)), ("iterator", lambda: iter(word)),
+                            ("dict_keys", lambda: dict.fromkeys(dict.fromkeys(word)).keys()), ("reversed", lambda: reversed(word[::-1]))):
+            exp_codes = codes if label != "dict_keys" else [M.encode(w) for w in dict.fromkeys(word)]
+            r = call(lambda: pl(A.encode_multiple(make())))
+            judge(ctx, "LetterAlphabet.encode_multiple", label, lambda: aud_case(fam, alph=syms, label=label), r, ("accept", exp_codes), 1)
+            r = call(lambda: str(bs.GeneralSequence(A, make())))
+            judge(ctx, "Sequence()", label, lambda: aud_case(fam, alph=syms, label=label), r,
+                  ("accept", "".join(M.symbols[c] for c in exp_codes)), 1)
+        # single symbols: subclass / numpy scalar forms
+        for label, x in (("str_subclass", _SubStr(word[1])), ("np_str", np.str_(word[1])), ("np_bytes", np.bytes_(word[1].encode()))):
+            r = call(lambda: [plain(A.encode(x)), x in A])
+            judge(ctx, "LetterAlphabet.encode", label, lambda: aud_case(fam, alph=syms, label=label), r, ("accept", [codes[1], True]), 1)
+        # numpy integer / 0-d indices on a sequence
+        for label, i, want in (("np_uint8", np.uint8(1), ("accept", q0[1])), ("np_int8_neg", np.int8(-1), ("accept", q0[-1])),
+                               ("np_int64", np.int64(2), ("accept", q0[2])), ("zero_dim", np.array(2), ("either", q0[2])),
+                               ("bool_true", True, ("free",))):
+            r = call(lambda: plain(bs.GeneralSequence(A, q0)[i]))
+            judge(ctx, "Sequence.__getitem__", "scalar_" + label, lambda: aud_case(fam, alph=syms, label=label), r, want, 1)
+
+            def setit():
+                q = bs.GeneralSequence(A, q0)
+                q[i] = M.symbols[-1]
+                return str(q)
+            t = list(q0)
+            if label != "bool_true":
+                t[int(i)] = M.symbols[-1]
+            r = call(setit)
+            judge(ctx, "Sequence.__setitem__", "scalar_" + label, lambda: aud_case(fam, alph=syms, label=label), r,
+                  (want[0], "".join(t)) if want[0] != "free" else want, 1)
+        # aliasing: what is handed in is not tied to the object unless biotite keeps the very array (counted, not judged)
+        lst = list(word)
+        q = bs.GeneralSequence(A, lst)
+        lst[0] = M.symbols[-1]
+        lst.append(M.symbols[0])
+        r = call(str, q)
+        judge(ctx, "Sequence()", "list_mutated_afterwards", lambda: aud_case(fam, alph=syms, label="alias_list"), r, ("accept", "".join(word)), 1)
+        symlist = list(syms)
+        A2 = bs.LetterAlphabet(symlist)
+        symlist[0], symlist[-1] = symlist[-1], symlist[0]
+        symlist.append("x")
+        r = call(lambda: [list(A2.get_symbols()), len(A2), A2.encode(syms[0]), A2.decode(0)])
+        judge(ctx, "LetterAlphabet()", "list_mutated_afterwards", lambda: aud_case(fam, alph=syms, label="alias_alphabet"), r,
+              ("accept", [list(syms), n, 0, syms[0]]), 1)
+        for dt in ("uint8", "int64"):
+            arr = np.array(good, dtype=dt)
+            q = bs.GeneralSequence(A)
+            q.code = arr
+            arr[0] = good[1]
+            shared = str(q) != "".join(exp)
+            ctx.count("unspecified")
+            ctx.count("alias:Sequence.code=%s:%s" % (dt, "shares" if shared else "copies"))
+            ctx.ev(1, 1)
+        res = A.decode_multiple(np.array(good, dtype=np.uint8))
+        res[0] = "~"
+        r = call(lambda: pl(A.decode_multiple(np.array(good, dtype=np.uint8))))
+        judge(ctx, "LetterAlphabet.decode_multiple", "result_mutated", lambda: aud_case(fam, alph=syms, label="alias_result"), r, ("accept", exp), 1)
+        res = A.encode_multiple("".join(word))
+        res[:] = 0
+        r = call(lambda: pl(A.encode_multiple("".join(word))))
+        judge(ctx, "LetterAlphabet.encode_multiple", "result_mutated", lambda: aud_case(fam, alph=syms, label="alias_result"), r, ("accept", codes), 1)
+    ctx.sample(aud_case(fam, label="valid_int64", flavour="strided"))
+
+
+def fam_flavour_generic(ctx):
+    """generic Alphabet / AlphabetMapper: array flavours, big alphabets around the 256 / 65536 code-width switches,
+    one mapper object reused for everything"""
+    import biotite.sequence as bs
+
+    fam = "flavour_generic"
+    syms = gen_symbols("mixed", 5, ctx.seed)
+    A, M = bs.Alphabet(syms), sm.AlphaModel(syms)
+    good = [0, 4, 2, 0]
+    for dt in ("uint8", "int8", "int32", "int64", "uint64"):
+        for flav, arr, keep in int_flavours(good, dt, 5):
+            check_flavoured(ctx, "Alphabet.decode_multiple", fam, "valid@" + dt, flav, arr, keep,
+                            lambda a: same_syms(list(A.decode_multiple(a)), [syms[c] for c in good]), ("accept", True))
+        for flav, arr, keep in int_flavours([0, 5], dt, 0):
+            check_flavoured(ctx, "Alphabet.decode_multiple", fam, "code_eq_len@" + dt, flav, arr, keep,
+                            lambda a: repr(A.decode_multiple(a)), ("refuse", True))
+    strs = gen_symbols("strings", 4, ctx.seed)
+    AS, MS = bs.Alphabet(strs), sm.AlphaModel(strs)
+    for label, x in (("U_array", np.array(strs[::-1])), ("object_array", np.array(strs[::-1], dtype=object)),
+                     ("generator", (s for s in strs[::-1])), ("np_str_list", [np.str_(s) for s in strs[::-1]])):
+        r = call(lambda: pl(AS.encode_multiple(x)))
+        judge(ctx, "Alphabet.encode_multiple", label, lambda: aud_case(fam, label=label), r, ("accept", list(range(len(strs)))[::-1]), 1)
+    obj = np.empty(3, dtype=object)
+    obj[:] = [syms[2], syms[0], syms[4]]
+    r = call(lambda: pl(A.encode_multiple(obj)))
+    judge(ctx, "Alphabet.encode_multiple", "object_array", lambda: aud_case(fam, label="object_array_mixed"), r, ("accept", [2, 0, 4]), 1)
+    # the symbol list handed to the constructor is not tied to the alphabet
+    lst = list(syms)
+    A2 = bs.Alphabet(lst)
+    lst[0], lst[1] = lst[1], lst[0]
+    lst.append("new")
+    r = call(lambda: [same_syms(list(A2.get_symbols()), syms), len(A2), A2.encode(syms[0]), "new" in A2])
+    judge(ctx, "Alphabet()", "list_mutated_afterwards", lambda: aud_case(fam, label="alias_alphabet"), r, ("accept", [True, 5, 0, False]), 1)
+    for empty, cls in (([], bs.Alphabet), ("", bs.LetterAlphabet), ((), bs.Alphabet)):
+        r = call(lambda: repr(cls(empty)))
+        judge(ctx, "Alphabet()", "empty_symbol_list", lambda: aud_case(fam, label="empty"), r, ("refuse", False), 1)
+    # size switches of the code width: 256 | 257 and 65536 | 65537 symbols
+    for n in (255, 256, 257, 65535, 65536, 65537):
+        big = [("s", n - i) for i in range(n)]
+        B, MB = bs.Alphabet(big), None
+        edge = sorted({0, 1, 254, 255, 256, 257, 65534, 65535, 65536, n - 2, n - 1} & set(range(n)))
+        want_syms = [big[c] for c in edge]
+
+        def through(dt):
+            q = bs.GeneralSequence(B, want_syms)
+            code = pl(q.code)
+            q2 = bs.GeneralSequence(B)
+            q2.code = np.array(edge, dtype=dt)
+            return [code, same_syms(list(q.symbols), want_syms), same_syms(list(q2.symbols), want_syms),
+                    same_syms([q2[i] for i in range(len(edge))], want_syms), pl(B.encode_multiple(want_syms)),
+                    same_syms(B.decode_multiple(np.array(edge, dtype=dt)), want_syms), bool(q == q2), len(q + q2)]
+        for dt in ("int64", "uint32", "uint16") if n <= 65536 else ("int64", "uint32"):
+            r = call(through, dt)
+            judge(ctx, "Sequence()", "alphabet_size_%d" % n, lambda: aud_case(fam, label="big", n=n, dt=dt), r,
+                  ("accept", [edge, True, True, True, edge, True, True, 2 * len(edge)]), 1)
+        width = 256 if n <= 256 else (65536 if n <= 65536 else 2**32)
+        for c in (n, n + 1, width, width + 1, width + n - 1, -1, -width, -width + 1, 2 * width + 2, 2**32 + 3, 2**63 - 1):
+            mk = lambda: aud_case(fam, label="big_oor", n=n, code=c)  # noqa: E731
+            check_seq_code(ctx, B, sm.AlphaModel(big), mk, np.array([1, c], dtype=np.int64), letter=False)
+            r = call(lambda: repr(B.decode(c)))
+            judge(ctx, "Alphabet.decode", code_class(c, n), mk, r, ("refuse", True), 1)
+    # mappers between big alphabets: every width combination of the compiled mapping routine
+    sizes = (3, 256, 257, 65537)
+    for ns in sizes:
+        for nt in sizes:
+            if nt < ns or (ns == 65537 and ctx.tier == "quick" and nt == 65537 and False):
+                continue
+            src = [("s", i) for i in range(ns)]
+            dst = [("s", i) for i in range(nt)][::-1]
+            S, T = bs.Alphabet(src), bs.Alphabet(dst)
+            r = call(bs.AlphabetMapper, S, T)
+            if r[0] == "exc":
+                judge(ctx, "AlphabetMapper()", "big_%d_%d" % (ns, nt), lambda: aud_case(fam, label="bigmap", ns=ns, nt=nt), r, ("accept", "mapper"), 1)
+                continue
+            mp = r[1]
+            codes = sorted({0, 1, 2, 254, 255, 256, ns - 2, ns - 1} & set(range(ns)))
+            exp = [nt - 1 - c for c in codes]
+            for dt in ("uint8", "uint16", "uint32", "uint64", "int64", "list", "int"):
+                cs = [c for c in codes if dt in ("int", "list") or c <= np.iinfo(dt).max]
+                ex = [nt - 1 - c for c in cs]
+                if dt == "int":
+                    f = lambda a: [int(mp[c]) for c in cs]  # noqa: E731
+                    arr = np.array(cs)
+                elif dt == "list":
+                    f = lambda a: pl(mp[list(cs)])  # noqa: E731
+                    arr = np.array(cs)
+                else:
+                    f = lambda a: pl(mp[a])  # noqa: E731
+                    arr = np.array(cs, dtype=dt)
+                for flav, a, keep in (int_flavours(cs, dt, 0) if dt not in ("int", "list") else [("plain", arr, None)]):
+                    if flav == "subclass" or (flav == "byteswapped" and dt != "uint16"):
+                        continue
+                    check_flavoured(ctx, "AlphabetMapper[]", fam, "codes@big_%d_%d@%s" % (ns, nt, dt), flav, a, keep, f,
+                                    ("accept", ex), strict_flavours=False)
+    # one small mapper object used for everything, refusals in between
+    S, T = bs.Alphabet(["A", "C", "G"]), bs.LetterAlphabet("TGCA")
+    mp = bs.AlphabetMapper(S, T)
+    expm = {0: 3, 1: 2, 2: 1}
+    for rnd in range(2):
+        for dt in ("uint8", "uint16", "uint32", "uint64", "int64", "int8", "int32"):
+            for cs in ([2, 0, 1, 2], [], [1]):
+                for flav, a, keep in int_flavours(cs, dt, 0):
+                    r = check_flavoured(ctx, "AlphabetMapper[]", fam, "codes@reused@%s" % dt, flav, a, keep, lambda x: pl(mp[x]),
+                                        ("accept", [expm[c] for c in cs]), strict_flavours=False)
+                    if r[0] == "ok" and cs:
+                        out = mp[a]
+                        if isinstance(out, np.ndarray) and np.shares_memory(out, a):
+                            ctx.violation("AlphabetMapper[]|result_aliases_argument|%s" % flav, "mapped code shares memory with its input",
+                                          aud_case(fam, label="codes@reused@" + dt, flavour=flav), "independent", "shared")
+            call(lambda: mp[np.array([3], dtype=dt)])     # refused (out of range) in between
+            call(lambda: mp[7])
+        # earlier results stay what they were when the same mapper is used again
+        first = mp[np.array([2, 0, 1], dtype=np.uint8)]
+        second = mp[np.array([0, 0, 2], dtype=np.uint8)]
+        third = mp[[1, 1, 1]]
+        r = call(lambda: [pl(first), pl(second), pl(third)])
+        judge(ctx, "AlphabetMapper[]", "earlier_results_after_reuse", lambda: aud_case(fam, label="reused_results"), r,
+              ("accept", [[1, 3, 2], [3, 3, 1], [2, 2, 2]]), 1)
+        r = call(lambda: [int(mp[c]) for c in (0, 1, 2)] + [int(mp[np.int64(1)]), int(mp[np.uint8(2)])])
+        judge(ctx, "AlphabetMapper[]", "reused_int", lambda: aud_case(fam, label="reused_int"), r, ("accept", [3, 2, 1, 2, 1]), 1)
+    ident = bs.AlphabetMapper(S, bs.Alphabet(["A", "C", "G", "T"]))
+    a = np.array([2, 0], dtype=np.uint8)
+    out = ident[a]
+    ctx.count("unspecified")
+    ctx.count("alias:AlphabetMapper(identity)[]:%s" % ("returns_argument" if out is a or np.shares_memory(out, a) else "copies"))
+    ctx.ev(1, 1)
+    ctx.sample(aud_case(fam, label="big_257_65537@uint16", flavour="strided"))
+
+
+def fam_flavour_kmer(ctx):
+    """KmerAlphabet: array flavours, spacing argument aliasing, int64 overflow switch, refusals, empties"""
+    import biotite.sequence as bs
+    from biotite.sequence.align import KmerAlphabet
+
+    fam = "flavour_kmer"
+    base = bs.LetterAlphabet("ACGT")
+    n = 4
+    for sp, spname in ((None, "contiguous"), ([0, 2, 3], "spaced")):
+        k = 3
+        K = KmerAlphabet(base, k, spacing=sp)
+        seq_ = [3, 0, 2, 1, 1, 3, 0]
+        exp = sm.kmers_of(seq_, n, k, sp)[0]
+        for dt in UDTYPES:
+            for flav, a, keep in int_flavours(seq_, dt, 255):
+                check_flavoured(ctx, "KmerAlphabet.create_kmers", fam, spname + "@" + dt, flav, a, keep, K.create_kmers,
+                                ("accept", exp), strict_flavours=False)
+            bad = list(seq_)
+            bad[4] = n
+            for flav, a, keep in int_flavours(bad, dt, 0):
+                check_flavoured(ctx, "KmerAlphabet.create_kmers", fam, spname + "_code_eq_len@" + dt, flav, a, keep,
+                                lambda x: pl(K.create_kmers(x)), ("refuse", flav not in ("byteswapped", "readonly")))
+        for dt in ("int64", "int32", "int8", "uint8", "uint16", "uint64"):
+            t = [2, 0, 3]
+            for flav, a, keep in int_flavours(t, dt, n):
+                check_flavoured(ctx, "KmerAlphabet.fuse", fam, "tuple@" + dt, flav, a, keep, K.fuse, ("accept", sm.kmer_fuse(t, n)))
+            t2 = [[2, 0, 3], [0, 0, 1], [3, 3, 3], [1, 2, 0]]
+            e2 = [sm.kmer_fuse(x, n) for x in t2]
+            two = np.array(t2, dtype=dt)
+            wide = np.full((4, 6), n, dtype=dt)
+            wide[:, ::2] = two
+            for flav, a in (("c_order", two), ("f_order", np.asfortranarray(two)), ("transposed_view", np.array(t2, dtype=dt).T.copy().T),
+                            ("strided_2d", wide[:, ::2]), ("readonly_2d", (lambda x: (x.setflags(write=False), x)[1])(two.copy())),
+                            ("three_dim", two.reshape(2, 2, 3))):
+                ex = e2 if flav != "three_dim" else [e2[:2], e2[2:]]
+                check_flavoured(ctx, "KmerAlphabet.fuse", fam, "matrix@" + dt, flav, a, None, K.fuse,
+                                ("accept", ex) if flav != "three_dim" else ("either", ex))
+            codes = [sm.kmer_fuse(x, n) for x in t2]
+            for flav, a, keep in int_flavours(codes, dt if dt != "int8" else "int16", 64):
+                check_flavoured(ctx, "KmerAlphabet.split", fam, "codes@" + dt, flav, a, keep, K.split, ("accept", t2))
+        for label, x, want in (("fuse_list", [2, 0, 3], ("either", sm.kmer_fuse([2, 0, 3], n))),
+                               ("fuse_tuple", (2, 0, 3), ("either", sm.kmer_fuse([2, 0, 3], n)))):
+            r = call(lambda: pl(K.fuse(x)))
+            judge(ctx, "KmerAlphabet.fuse", label, lambda: aud_case(fam, label=label), r, want, 1)
+        r = call(lambda: pl(K.create_kmers(list(seq_))))
+        judge(ctx, "KmerAlphabet.create_kmers", "list", lambda: aud_case(fam, label="kmers_list"), r, ("either", exp), 1)
+        for label, f, want in (("split_empty", lambda: [pl(K.split(np.array([], dtype=np.int64))), K.split(np.array([], dtype=np.int64)).shape[-1]], [[], 3]),
+                               ("fuse_empty", lambda: pl(K.fuse(np.empty((0, 3), dtype=np.int64))), []),
+                               ("kmers_exact_span", lambda: pl(K.create_kmers(np.array(seq_[:(sp[-1] + 1 if sp else k)], dtype=np.uint8))),
+                                sm.kmers_of(seq_[:(sp[-1] + 1 if sp else k)], n, k, sp)[0]),
+                               ("decode_multiple_empty", lambda: pl(K.decode_multiple(np.array([], dtype=np.int64))), []),
+                               ("encode_multiple_empty", lambda: pl(K.encode_multiple([])), [])):
+            r = call(f)
+            judge(ctx, "KmerAlphabet", label, lambda: aud_case(fam, label=label, sp=spname), r, ("accept", want), 1)
+        # a sequence object whose own code array is one of the flavours keeps working
+        for flav, a, keep in int_flavours([0, 3, 2, 2, 3, 1], "uint8", 9):
+            def whole(x):
+                q = bs.NucleotideSequence()
+                q.code = x
+                return [str(q), str(q.complement()), str(q.reverse().complement()), str(q.translate(complete=True)),
+                        pl(K.create_kmers(q.code)), str(q.copy()), str(q + q), pl(q.get_alphabet().encode_multiple(str(q)))]
+            s = "ATGGTC"
+            check_flavoured(ctx, "Sequence(code flavour)", fam, "whole_sequence", flav, a, keep, whole,
+                            ("accept", [s, "TACCAG", "GACCAT", "MV", sm.kmers_of([0, 3, 2, 2, 3, 1], n, k, sp)[0], s, s + s, [0, 3, 2, 2, 3, 1]]))
+    # spacing argument: not modified, not tied to the alphabet; the spacing getter hands out a copy
+    sparr = np.array([3, 0, 2], dtype=np.int64)
+    K = KmerAlphabet(base, 3, spacing=sparr)
+    ref = pl(K.create_kmers(np.array([3, 0, 2, 1, 1, 3, 0], dtype=np.uint8)))
+    r1 = sparr.tolist()
+    sparr[:] = [0, 1, 2]
+    got = K.spacing
+    got[:] = [0, 1, 5]
+    r = call(lambda: [r1, pl(K.spacing), pl(K.create_kmers(np.array([3, 0, 2, 1, 1, 3, 0], dtype=np.uint8))) == ref,
+                      ref == sm.kmers_of([3, 0, 2, 1, 1, 3, 0], 4, 3, [0, 2, 3])[0], K == KmerAlphabet(base, 3, spacing="1011")])
+    judge(ctx, "KmerAlphabet()", "spacing_array_aliasing", lambda: aud_case(fam, label="spacing_alias"), r,
+          ("accept", [[3, 0, 2], [0, 2, 3], True, True, True]), 1)
+    for label, f in (("k_1", lambda: KmerAlphabet(base, 1)), ("k_0", lambda: KmerAlphabet(base, 0)),
+                     ("spacing_count", lambda: KmerAlphabet(base, 2, spacing="111")), ("spacing_negative", lambda: KmerAlphabet(base, 2, spacing=[-1, 1])),
+                     ("spacing_duplicate", lambda: KmerAlphabet(base, 2, spacing=[1, 1])), ("base_not_alphabet", lambda: KmerAlphabet("ACGT", 2))):
+        r = call(lambda: repr(f()))
+        judge(ctx, "KmerAlphabet()", label, lambda: aud_case(fam, label=label), r, ("refuse", False), 1)
+    # size switch: k-mer codes around the int64 limit
+    for nb, kk in ((2, 61), (2, 62), (2, 63), (2, 64), (4, 30), (4, 31), (4, 32), (94, 9), (94, 10), (3, 39), (3, 40)):
+        bsyms = "".join(sm.PRINTABLE94[:nb])
+        fits = nb**kk <= 2**63 - 1
+        tuples = [[nb - 1] * kk, [0] * (kk - 1) + [1], [nb - 1] + [0] * (kk - 1), [(i * 7 + 1) % nb for i in range(kk)]]
+
+        def go():
+            Kb = KmerAlphabet(bs.LetterAlphabet(bsyms), kk)
+            out = [len(Kb)]
+            for t in tuples:
+                c = Kb.fuse(np.array(t, dtype=np.int64))
+                out.append([int(c), pl(Kb.split(int(c))), pl(Kb.create_kmers(np.array(t + t[:1], dtype=np.uint8)))[0],
+                            "".join(Kb.decode(int(c))) == "".join(bsyms[x] for x in t), int(Kb.encode("".join(bsyms[x] for x in t)))])
+            return out
+        exp = [nb**kk] + [[sm.kmer_fuse(t, nb), t, sm.kmer_fuse(t, nb), True, sm.kmer_fuse(t, nb)] for t in tuples]
+        r = call(go)
+        judge(ctx, "KmerAlphabet", "fits_int64" if fits else "exceeds_int64", lambda: aud_case(fam, label="kmer_big", n=nb, k=kk), r,
+              ("accept", exp) if fits else ("either", exp), 1)
+        ctx.outcome(("kmer_big", nb, kk, r[0], r[1] if r[0] == "exc" else None))
+    ctx.sample(aud_case(fam, label="contiguous@uint8", flavour="readonly"))
+
+
+# ---- object reuse / error paths: every 2-step history of a sequence object --------------------------
+def hist_ops(cls, alph, L):
+    """operation menu (JSON-able); model semantics in hist_model"""
+    a0, a1, al = alph[0], alph[1 % len(alph)], alph[-1]
+    ops = [["setint", 0, al], ["setint", -1, a1], ["setint", 0, "?"], ["setint", L, a0],
+           ["setslice", [0, 2, None], "str", al + a1], ["setslice", [None, None, -1], "seq", None],
+           ["setslice", [0, 2, None], "str", al], ["setslice", [0, 2, None], "str", al + "?"],
+           ["setslice", [0, 2, None], "str", al + a1 + a0], ["setslice", [0, 2, None], "code", [len(alph), 0]],
+           ["setslice", [0, 2, None], "code", [256, 0]], ["setslice", [1, None, None], "code", [len(alph) - 1] * max(L - 1, 0)],
+           ["symbols=", a1 + al + a1], ["symbols=", ""], ["symbols=", a1 + "?"], ["symbols=", [al, a0]],
+           ["code=", [len(alph) - 1, 0, 1 % len(alph)], "uint8"], ["code=", [1 % len(alph)], "int64"], ["code=", [0, 256], "int64"],
+           ["code=", [-1], "int64"], ["reverse"], ["copy"], ["add_self"], ["index", [None, None, 2]], ["noop_views"]]
+    if cls in ("nuc", "nuca"):
+        ops += [["complement"]]
+    if cls == "nuc":
+        ops += [["translate"]]
+    return ops
+
+
+def hist_model(alph, sym, op):
+    """-> ('ok', new symbol list) | ('refuse', strict) | ('either',)   (state unchanged unless 'ok')"""
+    L = len(sym)
+    k = op[0]
+    if k == "setint":
+        i, x = op[1], op[2]
+        if not -L <= i < L:
+            return ("refuse", False)
+        if x not in alph:
+            return ("refuse", True)
+        new = list(sym)
+        new[i] = x
+        return ("ok", new)
+    if k == "setslice":
+        pos = list(range(L))[slice(*op[1])]
+        if op[2] == "seq":
+            vs = list(sym)[:len(pos)]
+            if len(vs) != len(pos):
+                return ("refuse", False)
+        elif op[2] == "str":
+            vs = list(op[3])
+        else:
+            if any(not 0 <= c < len(alph) for c in op[3]):
+                return ("either",)
+            vs = [alph[c] for c in op[3]]
+        if any(v not in alph for v in vs):
+            return ("refuse", True)
+        if len(vs) != len(pos) and len(vs) != 1:
+            return ("refuse", False)
+        new = list(sym)
+        for j, p in enumerate(pos):
+            new[p] = vs[j if len(vs) > 1 else 0]
+        return ("ok", new)
+    if k == "symbols=":
+        vs = list(op[1])
+        if any(v not in alph for v in vs):
+            return ("refuse", True)
+        return ("ok", vs)
+    if k == "code=":
+        if any(not 0 <= c < len(alph) for c in op[1]):
+            return ("either",)
+        return ("ok", [alph[c] for c in op[1]])
+    return ("ok", list(sym))   # pure operations leave the object alone
+
+
+def hist_apply(cls, pal, q, sym, op):
+    """apply op to the live object; returns value of pure operations for comparison (or None)"""
+    k = op[0]
+    if k == "setint":
+        q[op[1]] = op[2]
+    elif k == "setslice":
+        if op[2] == "seq":
+            item = make_seq(cls, pal, "".join(sym))[:len(range(len(sym))[slice(*op[1])])]
+        elif op[2] == "str":
+            item = op[3]
+        else:
+            item = np.array(op[3], dtype=np.int64)
+        q[slice(*op[1])] = item
+    elif k == "symbols=":
+        q.symbols = op[1]
+    elif k == "code=":
+        q.code = np.array(op[1], dtype=op[2])
+    elif k == "reverse":
+        return str(q.reverse())
+    elif k == "copy":
+        return str(q.copy())
+    elif k == "add_self":
+        return str(q + q)
+    elif k == "index":
+        return str(q[slice(*op[1])])
+    elif k == "complement":
+        return str(q.complement())
+    elif k == "translate":
+        ps, pos = q.translate()
+        return [[str(p) for p in ps], [list(map(int, x)) for x in pos]]
+    elif k == "noop_views":
+        return [str(q), len(q), plain(q.symbols)]
+    return None
+
+
+def hist_pure_value(alph, sym, op):
+    s = "".join(sym)
+    k = op[0]
+    if k == "reverse":
+        return s[::-1]
+    if k == "copy":
+        return s
+    if k == "add_self":
+        return s + s
+    if k == "index":
+        return s[slice(*op[1])]
+    if k == "complement":
+        return "".join(sm.IUPAC_COMPLEMENT[c] for c in s)
+    if k == "translate":
+        o = sm.orfs(s, sm.STANDARD_CODE, {"ATG"}, False)
+        return [[p for p, _ in o], [list(x) for _, x in o]]
+    if k == "noop_views":
+        return [s, len(s), list(s)]
+    return None
+
+
+def check_history(ctx, cls, pal, s, ops):
+    fam = "seqhist"
+    alph = seq_alphabet(cls, pal)
+    mk = lambda: aud_case(fam, cls=cls, pal=pal, s=s, ops=ops)  # noqa: E731
+    q = make_seq(cls, pal, s)
+    sym = list(s)
+    for step, op in enumerate(ops):
+        m = hist_model(alph, sym, op)
+        r = call(hist_apply, cls, pal, q, sym, op)
+        site = "Sequence.history|" + op[0]
+        cl = "first_call" if step == 0 else ("after_refused_call" if prev_refused else "after_accepted_call")
+        if m[0] == "either":
+            # invalid codes: refused (unchanged) or stored-and-unreadable; stop the history when stored
+            ctx.ev(1, 1)
+            ctx.count("unspecified")
+            if r[0] == "exc":
+                bad = call(observe_seq, q, alph, sym)
+                if bad != ("ok", None):
+                    ctx.violation("%s|state_changed_by_refusal|%s" % (site, cl), "refused call changed the sequence", mk(), "".join(sym), list(bad))
+                    return
+                prev_refused = True
+                continue
+            v = call(lambda: str(q))
+            if v[0] == "ok":
+                ctx.violation("%s|value_for_invalid_code|%s" % (site, cl), "invalid code accepted and readable", mk(), "error", v[1])
+            return
+        if m[0] == "refuse":
+            if r[0] == "ok":
+                r = ("ok", str(call(str, q)))
+            if not judge(ctx, site, cl, mk, r, m, 1):
+                return
+            bad = call(observe_seq, q, alph, sym)
+            if bad != ("ok", None):
+                ctx.violation("%s|state_changed_by_refusal|%s" % (site, cl), "refused call changed the sequence", mk(), "".join(sym), list(bad))
+                return
+            prev_refused = True
+            continue
+        prev_refused = False
+        pure = hist_pure_value(alph, sym, op)
+        if r[0] == "ok":
+            bad = call(observe_seq, q, alph, m[1])
+            r = ("ok", [r[1], bad[1] if bad[0] == "ok" else list(bad)])
+        if not judge(ctx, site, cl, mk, r, ("accept", [pure, None]), 1):
+            return
+        sym = m[1]
+    ctx.outcome(("hist", cls, "".join(sym)))
+
+
+def fam_seqhist(ctx, part=None):
+    starts = {"nuc": ["ATGA", "ACG", ""], "nuca": ["ARNT", "NN"], "prot": ["MK*", "ACD"], "gen": ["xyx"]}
+    for cls, strs in starts.items():
+        if part is not None and cls != part:
+            continue
+        pal = "xyz" if cls == "gen" else None
+        alph = seq_alphabet(cls, pal)
+        for s in strs:
+            ops = hist_ops(cls, alph, len(s))
+            for a in ops:
+                check_history(ctx, cls, pal, s, [a])
+                for b in ops:
+                    check_history(ctx, cls, pal, s, [a, b])
+    ctx.sample(aud_case("seqhist", cls="nuc", pal=None, s="ATGA", ops=[["setint", 0, "?"], ["symbols=", "CTC"]]))
+
+
+# ---- translation / codon tables: aliasing, order independence, long inputs, item-length switch --------
+def fam_translate_extra(ctx):
+    import biotite.sequence as bs
+
+    fam = "translate_extra"
+    # (a) results are independent objects; the sequence and the table are left alone; same answer the second time
+    tabs = ["default", 11, "syn1", "syn3"]
+    for L in range(0, 7):
+        for p in itertools.product("ATG" if L > 4 else "ACGT", repeat=L):
+            s = "".join(p)
+            for tid in tabs:
+                t, aa, starts = get_table(tid)
+                for met in (False, True):
+                    exp = sm.orfs(s, aa, starts, met)
+                    if not exp and L:
+                        continue
+
+                    def go():
+                        q = bs.NucleotideSequence(s)
+                        ps, pos = q.translate(codon_table=t, met_start=met)
+                        first = [str(x) for x in ps]
+                        if ps:                             # scribble over one result: the others must not notice
+                            ps[0].code[:] = 22
+                            if [str(x) for x in ps[1:]] != first[1:]:
+                                return ["results share memory", first, [str(x) for x in ps]]
+                        for x in ps:                       # scribble over every result
+                            x.code[:] = 22
+                        again, pos2 = q.translate(codon_table=t, met_start=met)
+                        c = q.translate(complete=True, codon_table=t) if L % 3 == 0 else None
+                        if c is not None:
+                            c.code[:] = 22
+                        return [first, [str(x) for x in again], [list(map(int, x)) for x in pos2], str(q),
+                                t[s[:3]] if L >= 3 else None,
+                                str(q.translate(complete=True, codon_table=t)) if L % 3 == 0 else None]
+                    r = call(go)
+                    want = [[x for x, _ in exp], [x for x, _ in exp], [list(x) for _, x in exp], s, aa[s[:3]] if L >= 3 else None,
+                            sm.translate_complete(s, aa) if L % 3 == 0 else None]
+                    ctx.outcome(("alias", want[0]))
+                    judge(ctx, "NucleotideSequence.translate", "results_scribbled_then_repeated",
+                          lambda: aud_case(fam, label="alias", table=tid, s=s, met=met), r, ("accept", want), 1)
+    # (b) order independence: the same table built from differently ordered arguments
+    for name in SYN[:3]:
+        aa, st = synthetic(name)
+        variants = {
+            "reversed_dict": (dict(reversed(list(aa.items()))), list(st)),
+            "reversed_starts": (dict(aa), list(reversed(st))),
+            "sorted_by_aa": (dict(sorted(aa.items(), key=lambda kv: (kv[1], kv[0]))), sorted(st)),
+            "tuple_starts": (dict(aa), tuple(st)),
+            "duplicate_start": (dict(aa), list(st) + list(st[:1])),
+        }
+        for vname, (d, stv) in variants.items():
+            d0, st0 = dict(d), list(stv)
+            r = call(bs.CodonTable, d, stv)
+            mk = lambda: aud_case(fam, label="order", table=name, variant=vname)  # noqa: E731
+            if r[0] == "exc":
+                judge(ctx, "CodonTable()", vname, mk, r, ("accept", "table") if vname != "duplicate_start" else ("either", "table"), 1)
+                continue
+            t = r[1]
+            if d != d0 or list(stv) != st0:
+                ctx.violation("CodonTable()|argument_modified|" + vname, "constructor changed its argument", mk(), None, None)
+            d["AAA"] = "*" if aa["AAA"] != "*" else "A"        # mutate the arguments afterwards
+            if isinstance(stv, list):
+                stv.append("TTT")
+            got = call(lambda: [dict(sorted(t.codon_dict().items())) == dict(sorted(aa.items())), sorted(set(t.start_codons())),
+                                [t[c] for c in ("AAA", "TTT", "ATG")]])
+            judge(ctx, "CodonTable()", vname, mk, got, ("accept", [True, sorted(set(st)), [aa[c] for c in ("AAA", "TTT", "ATG")]]), 1)
+            # handed-out containers are not internal state
+            cd = t.codon_dict()
+            cd["CCC"] = "?"
+            cdc = t.codon_dict(code=True)
+            cdc[(0, 0, 0)] = 99
+            r2 = call(lambda: [t["CCC"], int(t[(0, 0, 0)]), dict(sorted(t.codon_dict().items())) == dict(sorted(aa.items()))])
+            judge(ctx, "CodonTable.codon_dict", "result_mutated", mk, r2, ("accept", [aa["CCC"], sm.PROT24.index(aa["AAA"]), True]), 1)
+            for L in range(0, 5):
+                for p in itertools.product("ACGT", repeat=L):
+                    s = "".join(p)
+                    exp = sm.orfs(s, aa, set(st), False)
+                    rr = call(lambda: (lambda ps, pos: [[str(x) for x in ps], [list(map(int, x)) for x in pos]])(
+                        *bs.NucleotideSequence(s).translate(codon_table=t)))
+                    ok = judge(ctx, "NucleotideSequence.translate", "table_built_" + vname,
+                               lambda: aud_case(fam, label="order_translate", table=name, variant=vname, s=s), rr,
+                               ("accept", [[x for x, _ in exp], [list(x) for _, x in exp]]) if vname != "duplicate_start"
+                               else ("either", [[x for x, _ in exp], [list(x) for _, x in exp]]), 1 if exp else 0)
+                    if not ok:
+                        break
+    # map_codon_codes / is_start_codon on array flavours
+    t, aa, starts = get_table(11)
+    cod = [[0, 3, 2], [3, 3, 2], [3, 0, 0], [1, 3, 2]]
+    names = ["".join(sm.NUC4[x] for x in c) for c in cod]
+    for dt in ("uint8", "int64", "int8", "uint32"):
+        two = np.array(cod, dtype=dt)
+        wide = np.zeros((4, 6), dtype=dt)
+        wide[:, ::2] = two
+        ro = two.copy()
+        ro.setflags(write=False)
+        for flav, a in (("c_order", two), ("f_order", np.asfortranarray(two)), ("strided", wide[:, ::2]), ("readonly", ro),
+                        ("reshaped_view", np.array(cod, dtype=dt).reshape(-1)[:].reshape(-1, 3)), ("list_of_lists", None)):
+            if a is None:
+                f = lambda x: [pl(t[c]) for c in cod]  # noqa: E731
+                a = two
+            else:
+                f = lambda x: [pl(t.map_codon_codes(x)), [bool(b) for b in t.is_start_codon(x)]]  # noqa: E731
+            want = [sm.PROT24.index(aa[c]) for c in names]
+            check_flavoured(ctx, "CodonTable.map_codon_codes", fam, "codons@" + dt, flav, a, None, f,
+                            ("accept", want if flav == "list_of_lists" else [want, [c in starts for c in names]]))
+    # (c) long inputs: lengths around 255/256/257 and 65535..65537, de Bruijn-like content
+    for Ln in (255, 256, 257, 999, 1000, 1001) + ((65535, 65536, 65537) if True else ()):
+        s = "".join(sm.NUC4[(i * i + i // 7 + (i >> 3)) % 4] for i in range(Ln))
+        short = Ln <= 1001
+
+        def go():
+            q = bs.NucleotideSequence(s)
+            out = [str(q) == s, len(q), str(q.reverse()) == s[::-1], str(q.complement()) == "".join(sm.IUPAC_COMPLEMENT[c] for c in s),
+                   str(q[::3]) == s[::3], bool(q == bs.NucleotideSequence(list(s)))]
+            ps, pos = q.translate()
+            out.append([[str(x) for x in ps], [list(map(int, x)) for x in pos]] if short else
+                       [len(ps), hash(tuple(str(x) for x in ps)) == hash(tuple(p_ for p_, _ in exp_orf)), [list(map(int, x)) for x in pos] == [list(x) for _, x in exp_orf]])
+            if Ln % 3 == 0:
+                out.append(str(q.translate(complete=True)) == sm.translate_complete(s, sm.STANDARD_CODE))
+            return out
+        exp_orf = sm.orfs(s, sm.STANDARD_CODE, {"ATG"}, False)
+        want = [True, Ln, True, True, True, True,
+                [[p_ for p_, _ in exp_orf], [list(x) for _, x in exp_orf]] if short else [len(exp_orf), True, True]]
+        if Ln % 3 == 0:
+            want.append(True)
+        r = call(go)
+        judge(ctx, "NucleotideSequence", "long_%s" % ("1e3" if short else "65536"), lambda: aud_case(fam, label="long", n=Ln), r, ("accept", want), 1)
+        from biotite.sequence.align import KmerAlphabet
+        for sp in (None, [0, 2, 5]):
+            K = KmerAlphabet(bs.NucleotideSequence.unambiguous_alphabet(), 3, spacing=sp)
+            code = [sm.NUC4.index(c) for c in s]
+            r = call(lambda: pl(K.create_kmers(bs.NucleotideSequence(s).code)) == sm.kmers_of(code, 4, 3, sp)[0])
+            judge(ctx, "KmerAlphabet.create_kmers", "long_%s" % ("1e3" if short else "65536"), lambda: aud_case(fam, label="long_kmers", n=Ln), r, ("accept", True), 1)
+    # (d) ProteinSequence: the `len(item) == 3` switch between 1-letter and 3-letter items
+    for items, want in ((["ALA", "G"], ("accept", "AG")), (["ala", "gLy", "m"], ("accept", "AGM")), (["AL"], ("either", NOVALUE)),
+                        (["ALAA"], ("either", NOVALUE)), (["A", "LA"], ("either", NOVALUE)), (["XXX"], ("either", NOVALUE)),
+                        (["SEC", "MSE"], ("accept", "CM")), ([" * "], ("either", "*")), (["*"], ("accept", "*")), ([""], ("either", NOVALUE)),
+                        (np.array(["ALA", "GLY"]), ("accept", "AG")), (("A", "GLY"), ("accept", "AG"))):
+        r = call(lambda: str(bs.ProteinSequence(items)))
+        judge(ctx, "ProteinSequence()", "item_len_%s" % "_".join(str(len(i)) for i in items),
+              lambda: aud_case(fam, label="prot_items", items=[str(i) for i in items]), r, want, 1)
+    for l3, l1 in THREE.items():
+        r = call(lambda: [bs.ProteinSequence.convert_letter_1to3(l3), bs.ProteinSequence.convert_letter_3to1(l1),
+                          str(bs.ProteinSequence([l1])), str(bs.ProteinSequence([l1.lower(), l3]))])
+        judge(ctx, "ProteinSequence()", "three_letter_codes", lambda: aud_case(fam, label="three", aa=l3), r, ("accept", [l1, l3, l3, l3 + l3]), 1)
+    # alphabet auto-selection of NucleotideSequence: each ambiguous letter alone and last
+    for c in sm.NUC15:
+        for s in (c, "A" + c, c + "T", "ACGT" + c):
+            for form in ("str", "list", "lower"):
+                exp_alph = sm.NUC4 if all(x in sm.NUC4 for x in s) else sm.NUC15
+                r = call(lambda: observe_seq(make_seq("nuc", None, s, form), exp_alph, list(s)))
+                judge(ctx, "NucleotideSequence()", "auto_alphabet", lambda: aud_case(fam, label="auto", s=s, form=form), r, ("accept", None), 1)
+    ctx.sample(aud_case(fam, label="alias", table="syn1", s="AAAGTG", met=True))
+
+
+AUDIT_FAMS = {"flavour_letter": fam_flavour_letter, "flavour_generic": fam_flavour_generic, "flavour_kmer": fam_flavour_kmer,
+              "translate_extra": fam_translate_extra}
+
+
+def run_audit(shard, ctx):
+    if not ctx.journal({"kind": "audit", "fam": shard["fam"], "part": shard.get("part"), "unit": "shard"}):
+        return
+    if shard["fam"] == "seqhist":
+        return fam_seqhist(ctx, shard.get("part"))
+    AUDIT_FAMS[shard["fam"]](ctx)
+
+
+def replay_audit(case, ctx):
+    if case["fam"] == "seqhist" and "ops" in case:
+        return check_history(ctx, case["cls"], case.get("pal"), case["s"], case["ops"])
+    run_audit({"fam": case["fam"], "part": case.get("part")}, _nojournal(ctx))
+
+
+RUNNERS["audit"] = run_audit
